@@ -174,7 +174,9 @@ fn main() -> Result<()> {
 
                     // Print warnings to stderr
                     for warning in &result.warnings {
-                        eprintln!("WARNING: {}", warning);
+                        // A warning that cannot be printed must not abort the conversion
+                        // (eprintln! panics when standard error cannot be written).
+                        let _ = writeln!(std::io::stderr(), "WARNING: {}", warning);
                     }
 
                     // Write output
